@@ -205,7 +205,7 @@ def _good_kwargs(rng, fmt, regions):
     elif fmt == 'fits':
         if rng.chance(0.35):
             how = rng.weighted([('region', 4), ('other', 2), ('none', 3),
-                                ('lower', 1)])
+                                ('lower', 1), ('scaling', 2)])
             cards = [['OBSERVER', 'verif'], ['NUMBER', 7]]
             if how == 'region':
                 cards.insert(0, ['EXTNAME', 'REGION'])
@@ -213,6 +213,12 @@ def _good_kwargs(rng, fmt, regions):
                 cards.insert(0, ['EXTNAME', 'MYEXT'])
             elif how == 'lower':
                 cards = [['extname', 'REGION'], ['observer', 'verif']]
+            elif how == 'scaling':
+                # a header copied from another tool's table: column keywords
+                # that are not this table's (they must not re-scale its data)
+                cards = [['EXTNAME', 'REGION'], ['TSCAL2', 2.0],
+                         ['TZERO2', 1.0], ['TNULL1', 0], ['TDISP2', 'F8.3'],
+                         ['TUNIT3', 'm'], ['OBSERVER', 'verif']]
             # ('none': the header does not name the extension at all)
             kw['header'] = {'t': 'dict', 'v': cards}
     return kw
@@ -221,10 +227,16 @@ def _good_kwargs(rng, fmt, regions):
 def _bad_kwargs(rng, fmt):
     menu = {
         'ds9': [{'precision': 'x'}, {'precision': -1}, {'bogus_kw': 1},
-                {'precision': None}, {'precision': 2.5}],
+                {'precision': None}, {'precision': 2.5},
+                # options a text writer might plausibly grow, with values
+                # that can only fail inside open()
+                {'encoding': 'utf-9'}, {'encoding': 'hex'},
+                {'newline': 'x'}, {'errors': 5}, {'mode': 'q'}],
         'crtf': [{'coordsys': 'bogus'}, {'fmt': 'q'}, {'radunit': 'parsec'},
                  {'bogus_kw': 1}, {'coordsys': 'precessedgeocentric'},
-                 {'fmt': None}, {'radunit': 'nonsense'}],
+                 {'fmt': None}, {'radunit': 'nonsense'},
+                 {'encoding': 'utf-9'}, {'encoding': 'hex'},
+                 {'newline': 'x'}],
         'fits': [{'header': {'t': 'dict', 'v': [['BAD', {'t': 'object'}]]}},
                  {'bogus_kw': 1}, {'header': 5},
                  {'header': {'t': 'dict', 'v': [['EXTNAME', 'REGION'],
